@@ -1,10 +1,12 @@
 use crate::Ctx;
 
+pub mod c01;
 pub mod c12;
 pub mod c20;
 
 pub fn dispatch(prop: &str, ctx: &Ctx) -> ! {
     match prop {
+        "C01" => c01::run(ctx),
         "C12" => c12::run(ctx),
         "C20" => c20::run(ctx),
         _ => {
